@@ -15,7 +15,8 @@ Modes == {"send", "recv"}                        \* server role: send (client pu
 Uploads == {"benign", "hostile", "delete-empty"} \* what an uploading client then sends
 Subs == {"root", "existing", "new"}              \* destination below the module: none, an existing directory, a new path
 FlagSets == SUBSET {"n", "delete"}
-Transports == {"conn", "stdio"}                  \* daemon protocol over a connection / over stdin+stdout (remote shell, SSH)
+Transports == {"conn", "stdio", "cmd"}           \* daemon protocol over a connection / over stdin+stdout (remote shell, SSH) /
+                                                 \* the module handed to the server directly (HandleConnArgs: command mode, no greeting)
 Faults == {"none", "bad-greeting", "unknown-module", "bad-args", "early-close"}
 (* the module table around the module under test: alone; next to a writable and another read-only module;    *)
 (* next to a writable module whose PATH is a string prefix of this module's path; below a writable module's   *)
